@@ -144,7 +144,7 @@ def run(tier: str, rng: random.Random, proof_ok: bool, oracle_fn=oracle, name="C
         for i, c in enumerate(chunk):
             lhs, rhs = SC.model_line(c)
             body.append(f"  chk_eq {i}%nat {lhs} {rhs}.\n")
-        path = os.path.join(GEN, f"cases_{name}_{k // per}.v")
+        path = os.path.join(GEN, f"cases_{name}_p{os.getpid()}_{k // per}.v")
         open(path, "w").write("".join([SC.HDR, orc.coq(), "Goal True.\n"] + body + ["exact I. Qed.\n"]))
         files.append((path, chunk))
     with concurrent.futures.ThreadPoolExecutor(max_workers=16) as ex:
